@@ -65,7 +65,8 @@ Definition sops (fixed : bool) : atom_ops satom := {|
   cmp := fun a => match a with SBytes _ => false | _ => true end;
   num := fun z => SNum ty_int (DInt z);
   as_num := fun a => match a with SNum _ (DInt z) => Some z | _ => None end;
-  fix4 := fixed
+  fix4 := fixed;
+  guide := None
 |}.
 
 Lemma sops_laws fixed : atom_laws (sops fixed).
@@ -98,7 +99,8 @@ Definition wops (fixed : bool) : atom_ops watom := {|
   cmp := fun _ => true;
   num := fun z => WNum (DInt z);
   as_num := fun a => match a with WNum (DInt z) => Some z | _ => None end;
-  fix4 := fixed
+  fix4 := fixed;
+  guide := None
 |}.
 
 Lemma wops_laws fixed : atom_laws (wops fixed).
@@ -117,12 +119,72 @@ Definition ser (a : satom) : watom :=
 Lemma ser_hom f1 f2 : atom_hom (sops f1) (wops f2) ser.
 Proof. constructor; [reflexivity | intros [b|t [z|m k]|s|s|s]; reflexivity]. Qed.
 
+(** * Following the implementation's index lists.
+
+    [table]: for some pairs of lists (old, new) the index list the implementation was seen to use.  The model
+    with [guide := table lookup] uses them where they are of the right length and in range, and its own choice
+    elsewhere; the round-trip theorems hold for it like for every guide.  The harness fills the table only
+    where the implementation's list differs from computeReorderIndices as modelled (never, on the tree as it
+    is).  [matching_ok] is what the documentation of computeReorderIndices promises about ANY such list: an
+    index is the position of an old element with the same reorder key, no position is used twice, and -1 is
+    given only when every old position with that key is used. *)
+Definition table := list (list (val satom) * list (val satom) * list (option nat)).
+
+Fixpoint list_veqb (O : atom_ops satom) (a b : list (val satom)) : bool :=
+  match a, b with
+  | [], [] => true
+  | x :: a', y :: b' => @veqb _ O x y && list_veqb O a' b'
+  | _, _ => false
+  end.
+
+Definition tlookup (t : table) (o n : list (val satom)) : option (list (option nat)) :=
+  match find (fun e => list_veqb (sops false) (fst (fst e)) o && list_veqb (sops false) (snd (fst e)) n) t with
+  | Some e => Some (snd e)
+  | None => None
+  end.
+
+Definition sops_g (fixed : bool) (t : table) : atom_ops satom := {|
+  aeqb := satom_eqb;
+  raw := fun a => match a with SBytes _ | SNamed _ => false | _ => true end;
+  cmp := fun a => match a with SBytes _ => false | _ => true end;
+  num := fun z => SNum ty_int (DInt z);
+  as_num := fun a => match a with SNum _ (DInt z) => Some z | _ => None end;
+  fix4 := fixed;
+  guide := match t with [] => None | _ => Some (tlookup t) end
+|}.
+
+Lemma sops_g_laws fixed t : atom_laws (sops_g fixed t).
+Proof. constructor; [exact satom_eqb_eq | reflexivity | reflexivity]. Qed.
+
+Lemma ser_hom_g f1 t f2 : atom_hom (sops_g f1 t) (wops f2) ser.
+Proof. constructor; [reflexivity | intros [b|ty [z|m k]|s|s|s]; reflexivity]. Qed.
+
+Definition count_some (j : nat) (idx : list (option nat)) : nat :=
+  List.length (filter (fun e => match e with Some j' => Nat.eqb j j' | None => false end) idx).
+
+Definition matching_ok (o n : list (val satom)) (idx : list (option nat)) : bool :=
+  let O := sops false in
+  let ko := map (@vreorder_key _ O) o in
+  Nat.eqb (List.length idx) (List.length n)
+  && forallb (fun p => match p with
+                       | (x, Some j) => Nat.ltb j (List.length o)
+                                        && @veqb _ O (nth j ko VNull) (@vreorder_key _ O x)
+                                        && Nat.eqb (count_some j idx) 1
+                       | (x, None) => forallb (fun q => match q with
+                                                        | (k, j) => negb (@veqb _ O k (@vreorder_key _ O x))
+                                                                    || Nat.eqb (count_some j idx) 1
+                                                        end) (index_from 0 ko)
+                       end) (combine n idx).
+
 (** * Correspondence with the implementation.
 
     [g_fixed]: what the harness's probe of diff.Diff found (is the "__key" pseudo-field ever diffed as a field?).
-    Components 4-6: the delta after JSON, merge.Merge and merge.ts on it. *)
+    [g_table]: index lists of the implementation that differ from the model's own choice (see above).
+    Components 4-6: the delta after JSON, merge.Merge and merge.ts on it; 9: the implementation's index lists
+    are matchings as documented. *)
 Record gcase := mk_gcase {
   g_fixed : bool;
+  g_table : table;
   g_old : val satom; g_new : val satom;
   g_delta : option (val watom);
   g_go : option (val watom);
@@ -130,9 +192,10 @@ Record gcase := mk_gcase {
 }.
 
 Definition gcheck_case (c : gcase) : list nat :=
-  let OS := sops (g_fixed c) in
+  let OS := sops_g (g_fixed c) (g_table c) in
   let OW := wops (g_fixed c) in
   let d := @VDiff _ OS (g_old c) (g_new c) in
+  (if forallb (fun e => matching_ok (fst (fst e)) (snd (fst e)) (snd e)) (g_table c) then [] else [9]) ++
   (if @opt_veqb _ OW (option_map (fun x => vnorm (vmap ser x)) d) (g_delta c) then [] else [4]) ++
   match d with
   | None => []
